@@ -5,9 +5,9 @@ This module creates the mocks/ directory structure with mock implementations
 for both tag-based endpoint clients and the main API client.
 """
 
+import re
 import tempfile
 import traceback
-from collections import defaultdict
 from pathlib import Path
 
 from pyopenapi_gen import IROperation, IRSpec
@@ -111,13 +111,30 @@ class MocksEmitter:
             raise
 
     def _group_operations_by_tag(self, spec: IRSpec) -> dict[str, list[IROperation]]:
-        """Group operations by their OpenAPI tag."""
-        operations_by_tag: dict[str, list[IROperation]] = defaultdict(list)
-
+        """Group operations by their OpenAPI tag, exactly as EndpointsEmitter and ClientVisitor do:
+        every tag of an operation counts, spelling variants of one tag are merged under a normalised key
+        and the canonical spelling is chosen by the same score."""
+        tag_key_to_ops: dict[str, list[IROperation]] = {}
+        tag_key_to_candidates: dict[str, list[str]] = {}
         for operation in spec.operations:
-            tag = operation.tags[0] if operation.tags else "default"
-            operations_by_tag[tag].append(operation)
+            tags = operation.tags or ["default"]
+            for tag in tags:
+                key = NameSanitizer.normalize_tag_key(tag)
+                tag_key_to_ops.setdefault(key, []).append(operation)
+                tag_key_to_candidates.setdefault(key, []).append(tag)
 
+        def tag_score(t: str) -> tuple[bool, int, int, str]:
+            is_pascal = bool(re.search(r"[a-z][A-Z]", t)) or bool(re.search(r"[A-Z]{2,}", t))
+            words = re.findall(r"[A-Z]?[a-z]+|[A-Z]+(?![a-z])|[0-9]+", t)
+            words += re.split(r"[_-]+", t)
+            word_count = len([w for w in words if w])
+            upper = sum(1 for c in t if c.isupper())
+            return (is_pascal, word_count, upper, t)
+
+        operations_by_tag: dict[str, list[IROperation]] = {}
+        for key in sorted(tag_key_to_ops):
+            canonical_tag_name = max(tag_key_to_candidates[key], key=tag_score)
+            operations_by_tag[canonical_tag_name] = tag_key_to_ops[key]
         return operations_by_tag
 
     def _generate_mock_endpoints_init(self, tag_tuples: list[tuple[str, str, str]]) -> str:
